@@ -1868,7 +1868,7 @@ package goatlang
 //@   modifies fields(l) elems(l.data) elems(l.indexToKey) M$Str$Int$dom M$Str$Int$val M$Str$Int$card
 //@   allocates elems(Value) elems(string)
 //@   nopanic
-//@   ensures#existing old(haskey(l.keyToIndex, key)) ==> result == old(l.keyToIndex[key]) && len(l.data) == old(len(l.data)) && l.keyToIndex[key] == result && l.cap == old(l.cap)
+//@   ensures#existing old(haskey(l.keyToIndex, key)) ==> result == old(l.keyToIndex[key]) && len(l.data) == old(len(l.data)) && haskey(l.keyToIndex, key) && l.keyToIndex[key] == result && l.cap == old(l.cap)
 //@   ensures#fresh !old(haskey(l.keyToIndex, key)) ==> result == old(len(l.data)) && len(l.data) == old(len(l.data)) + 1 && haskey(l.keyToIndex, key) && l.keyToIndex[key] == result && l.indexToKey[result] == key
 //@   ensures#others forall k2 string :: k2 != key ==> haskey(l.keyToIndex, k2) == old(haskey(l.keyToIndex, k2)) && l.keyToIndex[k2] == old(l.keyToIndex[k2])
 //@   ensures#stable l.keyToIndex == old(l.keyToIndex) && len(l.indexToKey) == len(l.data) && l.cap >= len(l.data) && l.cap >= old(l.cap)
@@ -1878,7 +1878,6 @@ package goatlang
 //@   def forall a string :: chain(a, a)
 //@   def forall a string, k string :: chain("~"+a, k) ==> chain(a, k)
 //@   def forall a string, k string :: chain(a, k) ==> len(k) >= len(a)
-//@   def forall a string, k string :: chain(a, k) && k != a ==> chain("~"+a, k)
 //@
 //@ func (*lookup).unshadow
 //@   property C08
@@ -1888,7 +1887,7 @@ package goatlang
 //@   nopanic
 //@   ensures#restore old(haskey(l.keyToIndex, "~"+key)) ==> haskey(l.keyToIndex, key) && l.keyToIndex[key] == old(l.keyToIndex["~"+key])
 //@   ensures#nothing !old(haskey(l.keyToIndex, "~"+key)) ==> (forall k2 string :: haskey(l.keyToIndex, k2) == old(haskey(l.keyToIndex, k2)) && l.keyToIndex[k2] == old(l.keyToIndex[k2]))
-//@   ensures#exact old(haskey(l.keyToIndex, "~"+key)) ==> (haskey(l.keyToIndex, "~"+key) == old(haskey(l.keyToIndex, "~~"+key))) && (haskey(l.keyToIndex, "~"+key) ==> l.keyToIndex["~"+key] == old(l.keyToIndex["~~"+key]))
+//@   ensures#exact old(haskey(l.keyToIndex, "~"+key)) ==> (haskey(l.keyToIndex, "~"+key) == old(haskey(l.keyToIndex, "~"+("~"+key)))) && (haskey(l.keyToIndex, "~"+key) ==> l.keyToIndex["~"+key] == old(l.keyToIndex["~"+("~"+key)]))
 //@   ensures#frame forall k2 string :: !chain(key, k2) ==> haskey(l.keyToIndex, k2) == old(haskey(l.keyToIndex, k2)) && l.keyToIndex[k2] == old(l.keyToIndex[k2])
 //@
 //@ func (*lookup).shadow
@@ -1899,15 +1898,57 @@ package goatlang
 //@   nopanic
 //@   ensures#hidden !haskey(l.keyToIndex, key)
 //@   ensures#parked old(haskey(l.keyToIndex, key)) ==> haskey(l.keyToIndex, "~"+key) && l.keyToIndex["~"+key] == old(l.keyToIndex[key])
-//@   ensures#deeper old(haskey(l.keyToIndex, key)) && old(haskey(l.keyToIndex, "~"+key)) ==> haskey(l.keyToIndex, "~~"+key) && l.keyToIndex["~~"+key] == old(l.keyToIndex["~"+key])
+//@   ensures#deeper old(haskey(l.keyToIndex, key)) && old(haskey(l.keyToIndex, "~"+key)) ==> haskey(l.keyToIndex, "~"+("~"+key)) && l.keyToIndex["~"+("~"+key)] == old(l.keyToIndex["~"+key])
 //@   ensures#nothing !old(haskey(l.keyToIndex, key)) ==> (forall k2 string :: haskey(l.keyToIndex, k2) == old(haskey(l.keyToIndex, k2)) && l.keyToIndex[k2] == old(l.keyToIndex[k2]))
 //@   ensures#frame forall k2 string :: !chain(key, k2) ==> haskey(l.keyToIndex, k2) == old(haskey(l.keyToIndex, k2)) && l.keyToIndex[k2] == old(l.keyToIndex[k2])
 //@
 //@ func (*lookup).Shadow
 //@   property C08
-//@   requires l != nil && l.keyToIndex != nil && len(l.indexToKey) == len(l.data)
+//@   requires l != nil && l.keyToIndex != nil && len(l.indexToKey) == len(l.data) && l.cap >= len(l.data)
 //@   modifies fields(l) elems(l.data) elems(l.indexToKey) M$Str$Int$dom M$Str$Int$val M$Str$Int$card
 //@   allocates elems(Value) elems(string)
 //@   nopanic
 //@   ensures#fresh result == old(len(l.data)) && len(l.data) == old(len(l.data)) + 1 && haskey(l.keyToIndex, key) && l.keyToIndex[key] == result
 //@   ensures#parked old(haskey(l.keyToIndex, key)) ==> haskey(l.keyToIndex, "~"+key) && l.keyToIndex["~"+key] == old(l.keyToIndex[key])
+
+//@ func (*lookup).Drop
+//@   property C08
+//@   requires l != nil && l.keyToIndex != nil && len(l.indexToKey) == len(l.data) && 0 <= t && t <= len(l.data)
+//@   modifies elems(l.indexToKey) M$Str$Int$dom M$Str$Int$val M$Str$Int$card
+//@   nopanic
+//@   ensures#len len(l.data) == old(len(l.data)) && len(l.indexToKey) == old(len(l.indexToKey))
+//@   ensures#cleared forall p int :: len(l.data) - t <= p && p < len(l.data) ==> l.indexToKey[p] == ""
+//@ func (*lookup).Drop loop 0
+//@   invariant 1 <= i && i <= t + 1 && len(l.data) == old(len(l.data)) && len(l.indexToKey) == old(len(l.indexToKey)) && l.keyToIndex == old(l.keyToIndex) && l.indexToKey == old(l.indexToKey)
+//@   invariant forall p int :: len(l.data) - i < p && p < len(l.data) ==> l.indexToKey[p] == ""
+//@
+//@ func (*compiler).Begin
+//@   property C08
+//@   requires c != nil && c.Locals != nil
+//@   modifies fields(c) elems(c.scope)
+//@   allocates elems(int)
+//@   nopanic
+//@   ensures len(c.scope) == old(len(c.scope)) + 1 && c.scope[len(c.scope)-1] == len(c.Locals.data) && c.Locals == old(c.Locals)
+//@   ensures forall j int :: 0 <= j && j < old(len(c.scope)) ==> c.scope[j] == old(c.scope[j])
+//@
+//@ func (*compiler).Shadow
+//@   property C08
+//@   requires c != nil && c.Locals != nil && c.Locals.keyToIndex != nil && len(c.scope) >= 1 && len(c.Locals.indexToKey) == len(c.Locals.data) && c.Locals.cap >= len(c.Locals.data)
+//@   modifies fields(c.Locals) elems(c.Locals.data) elems(c.Locals.indexToKey) M$Str$Int$dom M$Str$Int$val M$Str$Int$card
+//@   allocates elems(Value) elems(string)
+//@   nopanic
+//@   ensures#outer old(haskey(c.Locals.keyToIndex, key)) && old(c.Locals.keyToIndex[key]) < c.scope[len(c.scope)-1] ==> result == old(len(c.Locals.data)) && haskey(c.Locals.keyToIndex, "~"+key) && c.Locals.keyToIndex["~"+key] == old(c.Locals.keyToIndex[key])
+//@   ensures#same old(haskey(c.Locals.keyToIndex, key)) && old(c.Locals.keyToIndex[key]) >= c.scope[len(c.scope)-1] ==> result == old(c.Locals.keyToIndex[key]) && len(c.Locals.data) == old(len(c.Locals.data))
+//@   ensures#new !old(haskey(c.Locals.keyToIndex, key)) ==> result == old(len(c.Locals.data)) && len(c.Locals.data) == old(len(c.Locals.data)) + 1
+//@   ensures#bound haskey(c.Locals.keyToIndex, key) && c.Locals.keyToIndex[key] == result
+//@
+//@ func (*compiler).End
+//@   property C08
+//@   requires c != nil && c.Locals != nil && c.Locals.keyToIndex != nil && len(c.scope) >= 1 && len(c.Locals.indexToKey) == len(c.Locals.data)
+//@   requires 0 <= c.scope[len(c.scope)-1] && c.scope[len(c.scope)-1] <= len(c.Locals.data)
+//@   modifies fields(c) elems(c.Locals.indexToKey) M$Str$Int$dom M$Str$Int$val M$Str$Int$card
+//@   nopanic
+//@   ensures len(c.scope) == old(len(c.scope)) - 1 && c.Locals == old(c.Locals)
+//@   callsite#count (*lookup).Drop: arg_t == len(c.Locals.data) - old(c.scope[len(c.scope)-1])
+//@ func (*compiler).isLocal
+//@   inline
